@@ -234,7 +234,8 @@ func (r *SenderReport) MarshalSize() int {
 	for _, rep := range r.Reports {
 		repsLength += rep.len()
 	}
-	return headerLength + srHeaderLength + repsLength + len(r.ProfileExtensions)
+	// profile extensions are padded with zeros to a multiple of 4 octets
+	return headerLength + srHeaderLength + repsLength + len(r.ProfileExtensions) + getPadding(len(r.ProfileExtensions))
 }
 
 // Header returns the Header associated with this packet.
